@@ -45,6 +45,37 @@ func TestC02(t *testing.T) {
 				Ev.Probe("file_of_repeated_blocks_patched_in_place")
 			}
 		}
+		if rapid.IntRange(0, 7).Draw(rt, "hardlinks") == 0 {
+			// several names of the old build are one file on disk (hard links): a container lists them
+			// as ordinary files of equal content, and the new build changes them independently
+			if rapid.Bool().Draw(rt, "hlshape") && canPlace(pair.Old, "hl/lib.so") && canPlace(pair.New, "hl/lib.so") {
+				base := Bytes(rapid.Uint64().Draw(rt, "hlseed"), rapid.SampledFrom([]int{1000, BlockSize, 150 * KiB}).Draw(rt, "hlsize"))
+				ed := append([]byte{}, base...)
+				copy(ed[len(ed)/2:], []byte("patched"))
+				pair.Old["hl/lib.so"] = &Entry{Kind: KFile, Data: base}
+				pair.Old["hl/lib.so.1"] = &Entry{Kind: KFile, Data: base, HardTo: "hl/lib.so"}
+				switch rapid.IntRange(0, 3).Draw(rt, "hlchange") {
+				case 0: // the first name is patched, the second stays
+					pair.New["hl/lib.so"], pair.New["hl/lib.so.1"] = &Entry{Kind: KFile, Data: ed}, &Entry{Kind: KFile, Data: base}
+				case 1: // the other way round
+					pair.New["hl/lib.so"], pair.New["hl/lib.so.1"] = &Entry{Kind: KFile, Data: base}, &Entry{Kind: KFile, Data: ed}
+				case 2: // one name gets the content of another old file, the other stays
+					pair.Old["hl/other.bin"] = &Entry{Kind: KFile, Data: Bytes(77, len(base)+100)}
+					pair.New["hl/lib.so"], pair.New["hl/lib.so.1"] = &Entry{Kind: KFile, Data: pair.Old["hl/other.bin"].Data}, &Entry{Kind: KFile, Data: base}
+				default: // one name becomes executable, the other does not
+					pair.New["hl/lib.so"], pair.New["hl/lib.so.1"] = &Entry{Kind: KFile, Data: base, Exec: true}, &Entry{Kind: KFile, Data: base}
+				}
+				pair.Old.Normalize()
+				pair.New.Normalize()
+			} else if fs := pair.Old.Files(); len(fs) >= 2 {
+				a := fs[rapid.IntRange(0, len(fs)-1).Draw(rt, "hla")]
+				b := fs[rapid.IntRange(0, len(fs)-1).Draw(rt, "hlb")]
+				if a != b && pair.Old[a].HardTo == "" && pair.Old[b].HardTo == "" && !pair.Old.isHardLinkTarget(b) {
+					pair.Old[b] = &Entry{Kind: KFile, Data: pair.Old[a].Data, Exec: pair.Old[a].Exec, HardTo: a}
+				}
+			}
+			Ev.Probe("old_build_with_hard_linked_files")
+		}
 		dir, cleanup := RunDir()
 		defer cleanup()
 		oldDir, newDir := filepath.Join(dir, "old"), filepath.Join(dir, "new")
